@@ -265,15 +265,22 @@ def _spec(which, step_none):
     raise KeyError(which)
 
 
-def _nonneg_licence(q, d):
-    """q/d >= 0 on every non-empty loop (x a visited index): q = (stop - start | x - start) + k*step, k >= 0, d = step"""
-    if not RF.P_eq(d, RF.P_atom('step')):
+def _nonneg_licence(with_x):
+    """licence for trunc == floor: q/d >= 0 on every non-empty loop when d = step and q = (stop - start) + k*step with k >= 0
+    (or (x - start) + k*step when x is a visited index)"""
+    bases = [RF.P_add(RF.P_atom('stop'), RF.P_atom('start'), -1)]
+    if with_x == 'index':
+        bases.append(RF.P_add(RF.P_atom('x'), RF.P_atom('start'), -1))
+
+    def licence(q, d):
+        if not RF.P_eq(d, RF.P_atom('step')):
+            return False
+        for base in bases:
+            diff = RF.P_add(q, base, -1)
+            if not diff or (set(diff) == {('step',)} and diff[('step',)] >= 0):
+                return True
         return False
-    for base in (RF.P_add(RF.P_atom('stop'), RF.P_atom('start'), -1), RF.P_add(RF.P_atom('x'), RF.P_atom('start'), -1)):
-        diff = RF.P_add(q, base, -1)
-        if not diff or (set(diff) == {('step',)} and diff[('step',)] >= 0):
-            return True
-    return False
+    return licence
 
 
 def formula_rule(ctx, rule, fn, relpath, rp, xp, which, with_x):
@@ -304,8 +311,8 @@ def formula_rule(ctx, rule, fn, relpath, rp, xp, which, with_x):
             if unknown or (step_none and 'step' in RF.F_atoms(cand)):
                 raise AnalysisError(f'C10 {rule}: {fn.name} ({where}): formula over unexpected atoms {sorted(unknown) or ["step (None)"]}')
             sign_of = (lambda d, s_=sign: s_ if RF.P_eq(d, RF.P_atom('step')) else None)
-            cc = RF.canonical(cand, nonneg=_nonneg_licence, sign_of=sign_of)
-            cs = RF.canonical(spec, nonneg=_nonneg_licence, sign_of=sign_of)
+            cc = RF.canonical(cand, nonneg=_nonneg_licence(with_x), sign_of=sign_of)
+            cs = RF.canonical(spec, nonneg=_nonneg_licence(with_x), sign_of=sign_of)
             facts = {'formula': cand.show(), 'canonical': cc.show(), 'do_loop_formula': cs.show(),
                      'path': [("" if p_ else "not ") + ast.unparse(t_) for t_, p_ in conds_]}
             if RF.F_same(cc, cs):
